@@ -4,10 +4,12 @@
 package main
 
 import (
+	"errors"
 	"fmt"
 	"net"
 	"net/netip"
 	"strconv"
+	"syscall"
 	"time"
 
 	"github.com/irai/packet"
@@ -92,8 +94,24 @@ func sendPaths(r *lib.Run, rng *lib.Rand, n int) {
 			}
 		}
 	}
+	// transient send errors: the first write of every call in every other round fails with an errno a packet socket really returns
+	// (a full transmit queue, an interrupted call, ...) or a generic error; whatever the function then does (give up,
+	// retry), every frame that does reach the wire must be completed correctly
+	faults := []error{syscall.ENOBUFS, syscall.EAGAIN, syscall.EINTR, syscall.ENETDOWN, syscall.EMSGSIZE, errors.New("injected"), net.ErrClosed}
 	for i := 0; i < n; i++ {
 		id, seq := uint16(rng.U64()), uint16(rng.U64())
+		conn.Fail = nil
+		if (i/6)%2 == 1 { // every other round of the six send functions
+			fe, failed := faults[(i/12+i)%len(faults)], false
+			conn.Fail = func([]byte) error {
+				if !failed {
+					failed = true
+					return fe
+				}
+				return nil
+			}
+			r.Stat("class.send.first-write-fails", 1)
+		}
 		switch i % 6 {
 		case 5:
 			// router advertisements grow with the number of prefixes / RDNSS servers: ICMPv6 messages from ~80 to
